@@ -1,5 +1,5 @@
 (** * C04 - Interrupted operations resume to the same result; seed fixed by the first call. *)
-From LP Require Import Proofs.Tactics Proofs.Loop Proofs.Resume Proofs.Examples.
+From LP Require Import Proofs.Tactics Proofs.Loop Proofs.Resume Proofs.Resume2 Proofs.Resume3 Proofs.Examples.
 Open Scope N_scope.
 
 (** The loop law: a run interrupted with budget [b1] and resumed with [b2] equals one run with
@@ -22,6 +22,22 @@ Theorem C04_select : forall (H : list N -> list N) l w wk e b,
   after_interrupted (select_winners H) l w = Some wk ->
   select_winners H e b wk = select_winners H e (total_budget l b) w.
 Proof. exact select_multi_resume. Qed.
+
+(** distributeGuaranteedTickets (gt1 mig lgt: [v2 = false]; gt2: [v2 = true]): the same law, across
+    both of its phases (per-user top-up, leftover redistribution) - an interruption in either phase,
+    resumed by anybody at any block, continues exactly where the single call would be. *)
+Theorem C04_distribute : forall (H : list N -> list N) v2 l w wk e b,
+  after_interrupted (distribute_guaranteed_tickets H v2) l w = Some wk ->
+  distribute_guaranteed_tickets H v2 e b wk = distribute_guaranteed_tickets H v2 e (total_budget l b) w.
+Proof. exact distribute_multi_resume. Qed.
+
+(** selectNftWinners (nft): the same law, from every state in which no address is listed both as
+    an NFT entrant and as an NFT winner (kept by every step: [select_nft_resume]). *)
+Theorem C04_select_nft : forall (H : list N -> list N) l w wk e b,
+  NoDup (nft_payers (st w) ++ nft_winners (st w)) ->
+  after_interrupted (select_nft_winners_endpoint H) l w = Some wk ->
+  select_nft_winners_endpoint H e b wk = select_nft_winners_endpoint H e (total_budget l b) w.
+Proof. exact select_nft_multi_resume. Qed.
 
 (** a resumed selectWinners neither reads nor consumes the fresh randomness of its own call *)
 Theorem C04_select_seed_fixed : forall (H : list N -> list N) e b w r p sd,
@@ -54,6 +70,8 @@ Proof. vm_compute. repeat split. Qed.
 Print Assumptions C04_run_split.
 Print Assumptions C04_filter.
 Print Assumptions C04_select.
+Print Assumptions C04_distribute.
+Print Assumptions C04_select_nft.
 Print Assumptions C04_select_seed_fixed.
 Print Assumptions C04_completes.
 Print Assumptions C04_nonvacuous.
